@@ -12,6 +12,7 @@ import (
 
 	"github.com/irai/packet"
 	"github.com/irai/packet/fastlog"
+	"github.com/irai/packet/handlers/dhcp4_spoofer"
 	"pvharness/lib"
 )
 
@@ -47,13 +48,24 @@ func viewOf(kind string, b []byte) view {
 		return packet.EthernetPause(b)
 	case "ieee1905":
 		return packet.IEEE1905(b)
+	case "llc":
+		return packet.LLC(b)
+	case "snap":
+		return packet.SNAP(b)
+	case "rrcp":
+		return packet.RRCP(b)
+	case "redirect":
+		return packet.ICMP4Redirect(b)
+	case "lldp":
+		return packet.LLDP(b)
 	}
 	panic("harness: unknown view kind " + kind)
 }
 
 // views whose String() is Logger.Msg("").Struct(p).ToString() (or the same through FastLog)
 var stringViaFastLog = map[string]bool{"ether": true, "ip4": true, "ip6": true, "udp": true, "arp": true, "icmp": true,
-	"echo": true, "rs": true, "ra": true, "na": true, "ns": true, "dhcp4": true, "pause": true, "ieee1905": true}
+	"echo": true, "rs": true, "ra": true, "na": true, "ns": true, "dhcp4": true, "pause": true, "ieee1905": true,
+	"llc": true, "snap": true, "rrcp": true, "redirect": true, "lldp": true}
 
 func optAddr(s string) netip.Addr {
 	if s == "n" {
@@ -134,6 +146,36 @@ func registerViews(r *lib.Run) {
 				DHCP4Name: nameOfTok(a[4], nil), MDNSName: nameOfTok(a[5], nil), SSDPName: nameOfTok(a[6], nil),
 				LLMNRName: nameOfTok(a[7], nil), NBNSName: nameOfTok(a[8], nil), IsRouter: a[9] == "T"}
 			return obsText([]byte(n.FastLog(l).ToString()))
+		case "ipname":
+			return obsText([]byte(packet.IPNameEntry{Addr: addrOfTok(a[1]), NameEntry: nameOfTok(a[2], nil)}.FastLog(l).ToString()))
+		case "dnsname":
+			return obsText([]byte(packet.DNSNameEntry{Addr: addrOfTok(a[1]), Name: string(lib.UnHex(a[2])), Model: string(lib.UnHex(a[3]))}.FastLog(l).ToString()))
+		case "dnsentry":
+			// at most one record per map: Go's map order is then irrelevant (the model takes the order as a parameter)
+			d := packet.NewDNSEntry()
+			d.Name = string(lib.UnHex(a[1]))
+			for _, e := range list(a[2]) {
+				ip := netip.MustParseAddr(string(lib.UnHex(e)))
+				d.IP4Records[ip] = packet.IPResourceRecord{IP: ip}
+			}
+			for _, e := range list(a[3]) {
+				ip := netip.MustParseAddr(string(lib.UnHex(e)))
+				d.IP6Records[ip] = packet.IPResourceRecord{IP: ip}
+			}
+			for _, e := range list(a[4]) {
+				d.CNameRecords[string(lib.UnHex(e))] = packet.NameResourceRecord{CName: string(lib.UnHex(e))}
+			}
+			return obsText([]byte(d.FastLog(l).ToString()))
+		case "lease":
+			lan, err := netip.ParsePrefix(string(lib.UnHex(a[8])))
+			if err != nil {
+				panic("harness: bad prefix")
+			}
+			ls := dhcp4_spoofer.VerifLeaseWithSubnet(
+				dhcp4_spoofer.Lease{ClientID: lib.UnHex(a[1]), State: dhcp4_spoofer.State(atoi(a[2])), Addr: addrOfTok(a[3]),
+					Name: string(lib.UnHex(a[4])), IPOffer: optAddr(a[5])},
+				dhcp4_spoofer.SubnetConfig{Stage: packet.HuntStage(atoi(a[6])), DefaultGW: optAddr(a[7]), LAN: lan, ID: string(lib.UnHex(a[9]))})
+			return obsText([]byte(ls.FastLog(l).ToString()))
 		}
 		panic("harness: unknown entry kind " + a[0])
 	})
@@ -202,7 +244,8 @@ func viewModelCases(g *gen) {
 	if g.r.Thorough() {
 		n = 1500
 	}
-	kinds := []string{"ether", "ip4", "ip6", "udp", "arp", "icmp", "echo", "rs", "ra", "na", "ns", "dhcp4", "dns", "pause", "ieee1905"}
+	kinds := []string{"ether", "ip4", "ip6", "udp", "arp", "icmp", "echo", "rs", "ra", "na", "ns", "dhcp4", "dns", "pause", "ieee1905",
+		"llc", "snap", "rrcp", "redirect", "lldp"}
 	do := func(kind string, b []byte) {
 		obs := g.r.Do("vw", kind, lib.Hex(b))
 		g.r.Stat("vw."+kind+"."+map[bool]string{true: "invalid", false: "valid"}[obs == "invalid"], 1)
@@ -265,6 +308,43 @@ func viewModelCases(g *gen) {
 		do("dns", rng.Bytes(12+rng.Intn(30)))
 		do("pause", append([]byte{0, 1, rng.Byte(), rng.Byte()}, make([]byte, 42)...))
 		do("ieee1905", append(rng.Bytes(8), payload...))
+		do("llc", append([]byte{byte(rng.Pick(0xaa, 0x42, int(rng.Byte()))), byte(rng.Pick(0xaa, 0x42, int(rng.Byte()))), byte(rng.Pick(3, 1, 0, int(rng.Byte())))}, payload...))
+		do("snap", append([]byte{0xaa, 0xaa, 3, rng.Byte(), rng.Byte(), rng.Byte(), rng.Byte(), rng.Byte()}, payload...))
+		do("rrcp", append([]byte{byte(rng.Pick(1, 0x23, int(rng.Byte()))), rng.Byte()}, rng.Bytes(14+rng.Intn(50))...))
+		{ // ICMPv4 router advertisement style redirect: n addresses of size 4 or 10 words
+			nAddr, size := rng.Intn(4), rng.Pick(4, 10)
+			rd := []byte{137, rng.Byte(), rng.Byte(), rng.Byte(), byte(nAddr), byte(size), rng.Byte(), rng.Byte()}
+			for k := 0; k < nAddr; k++ {
+				e := rng.Bytes(size * 4)
+				if size == 10 && rng.Bool() {
+					copy(e, g.ip6())
+				}
+				rd = append(rd, e...)
+			}
+			if rng.Chance(15) && len(rd) > 8 {
+				rd = rd[:len(rd)-1-rng.Intn(4)]
+			}
+			do("redirect", rd)
+		}
+		{ // LLDP: a sequence of TLVs of every type, lengths 0..40 (one in fifteen frames carries TLVs of hundreds of bytes)
+			var f []byte
+			nt := 1 + rng.Intn(7)
+			for k := 0; k < nt; k++ {
+				t := rng.Pick(1, 2, 3, 4, 5, 6, 7, 8, 9, 127, rng.Intn(128))
+				ln := rng.Pick(0, 1, 2, 3, 7, rng.Intn(40))
+				if i%15 == 0 {
+					ln = 200 + rng.Intn(311)
+				}
+				f = append(f, byte(t<<1|ln>>8), byte(ln))
+				f = append(f, rng.Bytes(ln)...)
+			}
+			if rng.Chance(80) {
+				f = append(f, 0, 0)
+			} else if len(f) > 3 {
+				f = f[:len(f)-1-rng.Intn(3)]
+			}
+			do("lldp", f)
+		}
 		// random bytes of boundary lengths through every kind: validity itself is compared
 		raw := rng.Bytes(rng.Pick(0, 7, 8, 11, 12, 13, 14, 15, 16, 19, 20, 23, 24, 27, 28, 31, 32, 39, 40, 45, 46, 239, 240, 241, 242, 260, rng.Intn(90)))
 		if len(raw) > 0 && rng.Bool() {
@@ -296,6 +376,18 @@ func viewModelCases(g *gen) {
 		g.r.Do("ve", append([]string{"mac", mm, tf2(rng.Bool()), tf2(rng.Bool()), g.optIP(false), g.optIP(true), g.optIP(true), g.optIP(false),
 			itoa(rng.Intn(4)), sinceZero, mf}, names()...)...)
 		g.r.Do("ve", append(append([]string{"notif", g.genAddrTok(), tf2(rng.Bool()), mf}, names()...), tf2(rng.Bool()))...)
+		g.r.Do("ve", "ipname", g.genAddrTok(), g.genNameTok(long))
+		g.r.Do("ve", "dnsname", g.genAddrTok(), lib.Hex(g.asciiN(rng.Intn(40))), lib.Hex(g.asciiN(rng.Intn(20))))
+		one := func(s string) string {
+			if rng.Chance(40) {
+				return "_"
+			}
+			return lib.Hex([]byte(s))
+		}
+		g.r.Do("ve", "dnsentry", lib.Hex(g.asciiN(rng.Intn(60))), one(g.a4().String()), one(g.a6().String()), one(string(g.asciiN(1+rng.Intn(60)))))
+		lan := netip.PrefixFrom(g.a4(), 8+rng.Intn(24)).Masked().String()
+		g.r.Do("ve", "lease", lib.Hex(rng.Bytes(rng.Intn(9))), itoa(rng.Intn(4)), g.genAddrTok(), lib.Hex(g.asciiN(rng.Intn(30))),
+			g.optIP(false), itoa(rng.Intn(5)), g.optIP(false), lib.Hex([]byte(lan)), lib.Hex(g.asciiN(rng.Intn(12))))
 	}
 	// entries whose text cannot fit (strings are unbounded): outside the property's "whose text fits";
 	// the rendering panics in appendByte, the model agrees (evidence for docs/C20.md, not a finding)
